@@ -125,3 +125,35 @@ def unit_under_config(prop, unit_name, n_cases=6, exclude=(), doc=None, quick=16
                 doc=doc or ("the oracle of unit %r re-run in fresh interpreters under drawn configurations (-O, warnings filter, logging level, "
                             "stdout encoding, locale, TZ, hash seed, pre-imports, cwd) and under every value of every environment variable the "
                             "library is seen reading" % unit_name))
+
+
+def unit_under_clocks(prop, unit_name, n_cases=4, quick=3, thorough=60):
+    """Every drawn batch of cases of an existing unit is evaluated in a fresh interpreter once per wall-clock value of
+    configrun.CLOCKS (month ends, the leap day, year ends, the 32-bit rollover; otherwise default configuration): the calendar
+    is exhaustively covered for each batch, so "only on the 31st" / "only on 29 February" cannot hide behind the date of the run."""
+    from hypothesis import strategies as st
+    from .runner import Inconclusive, Unit, _load_module
+
+    def strategy():
+        mod = _load_module(prop)
+        base = next(u for u in mod.UNITS if u.name == unit_name)
+        return st.fixed_dictionaries({"cases": st.lists(base.strategy(), min_size=n_cases, max_size=n_cases)})
+
+    def check(case):
+        corpus = {"prop": prop, "unit": unit_name, "cases": case["cases"]}
+        for clock in configrun.CLOCKS:
+            cfg = {"clock": clock, "cwd": "scratch", "preimport": [], "PYTHONHASHSEED": "0"}
+            r = configrun.run_child("unit", corpus, cfg, timeout=600)
+            if not isinstance(r, dict) or "results" not in r:
+                raise Inconclusive("child interpreter failed under clock %s: %s" % (clock, (r.get("stderr", "")[-400:] if isinstance(r, dict) else r)))
+            for i, x in enumerate(r["results"]):
+                if x and "violation" in x:
+                    raise Violation("%s [unit %s, case %d, in a fresh interpreter whose clock reads %s UTC]" % (x["violation"], unit_name, i, clock),
+                                    bucket=(x.get("bucket") or "violation") + " (clock)")
+                if x and "error" in x:
+                    raise Inconclusive("harness error in child under clock %s: %s\n%s" % (clock, x["error"], x.get("trace", "")))
+        return {"nontrivial": True, "labels": ["clocks=%d" % len(configrun.CLOCKS)], "count": {"child_runs": len(configrun.CLOCKS)}}
+
+    return Unit("clocks_" + unit_name, check, strategy=strategy, quick=quick, thorough=thorough, shards_quick=3, shrink=False,
+                doc="the oracle of unit %r re-run in fresh interpreters whose wall clock reads each of %d special instants (month ends, "
+                    "29 February, year ends, 2038-01-19)" % (unit_name, len(configrun.CLOCKS)))
